@@ -413,6 +413,15 @@ structure Side (cfg : Cfg) (avoid : List Name) (ps : List Param) : Prop where
   named : cfg.unnamedFixed = true ∨ ∀ n ∈ names ps, n ≠ []
   nocapture : cfg.shadowFixed = true ∨ ∀ n ∈ names ps, n ∉ avoid
 
+/-- for the generator as it is, both clauses are needed -/
+theorem side_current {avoid : List Name} {ps : List Param}
+    (h1 : ∀ n ∈ names ps, n ≠ []) (h2 : ∀ n ∈ names ps, n ∉ avoid) : Side Cfg.current avoid ps :=
+  ⟨Or.inr h1, Or.inr h2⟩
+
+/-- with the defects repaired the side condition is empty -/
+theorem side_fixed (avoid : List Name) (ps : List Param) : Side Cfg.fixed avoid ps :=
+  ⟨Or.inl rfl, Or.inl rfl⟩
+
 theorem effParams_namesOk (cfg : Cfg) {pre : Name} {avoid : List Name} (hpre : 1 ≤ pre.length)
     (hav : ∀ n ∈ avoid, n.length ≤ pre.length) (ps : List Param) (hv : ValidSig ps)
     (hs : Side cfg avoid ps) : NamesOk avoid (effParams cfg avoid pre ps) := by
@@ -775,6 +784,14 @@ type is a pointer, slice, map, channel, function or interface -/
 def ZeroSupported (env : Env) (T : Ty) : Prop :=
   nilable (env.under T) = true ∨ (isBasic T = true)
 
+instance (env : Env) (T : Ty) : Decidable (ZeroSupported env T) := by
+  unfold ZeroSupported; exact inferInstance
+
+/-- an underlying type is never a name or a bare field list -/
+def properTy : Ty → Bool
+  | .fnil | .fcons _ _ | .named _ => false
+  | _ => true
+
 theorem zero_ok_of_supported (env : Env) (T : Ty) (h : ZeroSupported env T) : ZeroOk env T (zeroText T) := by
   unfold ZeroOk
   rcases h with h | h
@@ -790,14 +807,13 @@ theorem zero_ok_of_supported (env : Env) (T : Ty) (h : ZeroSupported env T) : Ze
     | _ => simp [isBasic] at h
 
 /-- a repaired `Zero` is right for every proper type -/
-theorem zero_ok_fixed (env : Env) (T : Ty)
-    (h : match env.under T with | .fnil | .fcons _ _ | .named _ => False | _ => True) :
+theorem zero_ok_fixed (env : Env) (T : Ty) (h : properTy (env.under T) = true) :
     ZeroOk env T (fixedZero env T) := by
   unfold ZeroOk fixedZero zeroOkB
   generalize env.under T = U at h ⊢
   cases U with
   | basic b => cases b <;> simp
-  | _ => simp_all
+  | _ => simp_all [properTy]
 
 theorem indexFrom_fst {V} : ∀ (l : List (List V)) (i : Nat), (indexFrom i l).map Prod.fst = List.range' i l.length
   | [], _ => rfl
@@ -1142,7 +1158,7 @@ theorem composeWf_of (cfg : Cfg) (env : Env) (outs : List (List Ty))
     cases o <;> simp_all
 
 theorem zeroOk_zeroTextC (cfg : Cfg) (env : Env) (T : Ty)
-    (h : (cfg.zeroFixed = true ∧ match env.under T with | .fnil | .fcons _ _ | .named _ => False | _ => True) ∨
+    (h : (cfg.zeroFixed = true ∧ properTy (env.under T) = true) ∨
          (cfg.zeroFixed = false ∧ ZeroSupported env T)) :
     ZeroOk env T (zeroTextC cfg env T) := by
   unfold zeroTextC
